@@ -1,1 +1,58 @@
-fn main(){}
+//! `mvexec`: executes case files / thread programs in whatever configuration
+//! it was built as (feature and flag variants, Miri targets, TSan).
+//!
+//!   mvexec cases <in> <out> [start]   one line of observations per case; `BEGIN i` is journaled first
+//!   mvexec threads <file> [level]     run a thread program; exit 0 = agrees with the sequential oracle
+//!   mvexec config
+
+use std::io::Write;
+
+fn main() {
+    let args: Vec<String> = std::env::args().skip(1).collect();
+    match args.get(0).map(|s| s.as_str()) {
+        Some("config") => println!("{}", mvcore::cfgs::config_name()),
+        Some("cases") => {
+            let inp = std::fs::read_to_string(&args[1]).expect("read case file");
+            let start: usize = args.get(3).and_then(|s| s.parse().ok()).unwrap_or(0);
+            let mut out = std::fs::OpenOptions::new().create(true).append(true).open(&args[2]).expect("open output");
+            if let Some(l) = args.get(4) {
+                mvcore::cfgs::set_level(l.parse().unwrap_or(0));
+            }
+            std::panic::set_hook(Box::new(|_| {}));
+            for (i, line) in inp.lines().enumerate() {
+                if i < start {
+                    continue;
+                }
+                let c = match mvcore::exec::Case::decode(line) {
+                    Some(c) => c,
+                    None => continue,
+                };
+                writeln!(out, "BEGIN {}", i).unwrap();
+                out.flush().unwrap();
+                let obs = mvcore::exec::exec_case(&c);
+                writeln!(out, "DONE {} {}", i, obs).unwrap();
+            }
+            writeln!(out, "END").unwrap();
+        }
+        Some("threads") => {
+            if let Some(l) = args.get(2) {
+                mvcore::cfgs::set_level(l.parse().unwrap_or(0));
+            }
+            let text = std::fs::read_to_string(&args[1]).expect("read program");
+            let p = mvcore::threads::Program::decode(&text).expect("parse program");
+            match mvcore::threads::run(&p) {
+                Ok(calls) => {
+                    println!("OK {}", calls);
+                }
+                Err(e) => {
+                    println!("MISMATCH {}", e);
+                    std::process::exit(1);
+                }
+            }
+        }
+        _ => {
+            eprintln!("usage: mvexec cases <in> <out> [start [level]] | threads <file> [level] | config");
+            std::process::exit(2);
+        }
+    }
+}
